@@ -76,6 +76,9 @@ POOL = [
     'fn px(x: i32, n: i32) -> i32\n{\n\tvar p: i32 = x + n;\n\treturn: p\n}\n\n',
     'fn loc() -> i32\n{\n\tvar x: i32 = 1;\n\tvar n: i32 = 2;\n\treturn: x + n\n}\n\n',
     'fn undef() -> i32\n{\n\treturn: x\n}\n\n',
+    # 20..23: a word, and structures that hold it by value and behind a pointer
+    'word32 Rgba\n{\n\tr: u8,\n\tg: u8,\n\tb: u8,\n\ta: u8,\n}\n\n', 'struct Brush\n{\n\tcolor: &Rgba,\n\twidth: i32,\n}\n\n',
+    'struct Pix\n{\n\tc: Rgba,\n\tn: i32,\n}\n\n', 'fn paint(b: &Brush) -> i32\n{\n\treturn: b.width\n}\n\n',
 ]
 
 
@@ -85,7 +88,7 @@ def invariance_search(deadline, rng, modules=40, orders=8):
     or are duplicated are all included)"""
     for _ in range(modules):
         # declarations that can interact share a theme (a name, a dependency); one or two themes per module
-        themes = [[2, 4, 5, 8, 9, 10, 14], [0, 1, 7, 11, 12, 13], [3, 6, 0, 7], [4, 5, 8, 10, 7, 0, 1], [15, 16, 17, 18, 19, 4], [15, 17, 18, 19, 0]]
+        themes = [[2, 4, 5, 8, 9, 10, 14], [0, 1, 7, 11, 12, 13], [3, 6, 0, 7], [4, 5, 8, 10, 7, 0, 1], [15, 16, 17, 18, 19, 4], [15, 17, 18, 19, 0], [20, 21, 22, 23, 11], [20, 21, 23]]
         pool = sorted(set(i for t in rng.sample(themes, rng.randint(1, 2)) for i in t))
         decls = [POOL[i] for i in rng.sample(pool, min(len(pool), rng.randint(2, 6)))]
         perms = list(itertools.permutations(decls))
